@@ -996,7 +996,8 @@ func init() {
 		Title:     "Idle connections are closed after one and a half keepalive periods",
 		Technique: "must-pass-through (deadline refresh per packet) + narrow-integer arithmetic rule on the deadline expression",
 		Explanation: "(a) Client.Read refreshes the deadline with the session's keepalive before every fixed-header read; attachClient refreshes once after the CONNECT was parsed; keepalive 0 sets the zero time (no deadline); " +
-			"(b) the duration added to now is 1.5 × keepalive computed without loss: no addition or division on the uint16 keepalive before it is widened, and the factor 3/2 is applied in time.Duration.",
+			"(b) the duration added to now is 1.5 × keepalive computed without loss: no addition or division on the uint16 keepalive before it is widened, and the factor 3/2 is applied in time.Duration; " +
+			"(c) only inbound traffic extends the deadline: refreshDeadline is called from Client.Read and attachClient only, and it is the only place that sets a connection deadline (SetDeadline moves the read deadline too).",
 		NotDecided: []string{"timing on a real connection", "behaviour of net.Conn.SetDeadline"},
 		Run:        runC37,
 	})
@@ -1018,6 +1019,27 @@ func runC37(c *Ctx) {
 	if f := c.fn("mqtt", "(*Server).attachClient"); f != nil {
 		c.before("C37.a refresh-per-packet", "(*mqtt.Server).attachClient refreshes the deadline after parsing the CONNECT", c.call1(f, "(*mqtt.Client).ParseConnect"), c.call1(f, "(*mqtt.Client).refreshDeadline"), "")
 	}
+	// (c) only received packets extend the deadline: SetDeadline moves the read deadline too, so a refresh on the
+	// write side keeps a silent client alive for as long as messages are forwarded to it
+	c.whoCalls("C37.c only-inbound-refreshes", c.optFn("mqtt", "(*Client).refreshDeadline"), map[string]string{
+		"(*mqtt.Client).Read":         "before reading each inbound packet",
+		"(*mqtt.Server).attachClient": "once, after the CONNECT was parsed",
+	})
+	nSD := 0
+	for _, fn := range c.ModFns {
+		if fnPkgPath(fn) != modPath {
+			continue
+		}
+		for _, ins := range instrs(fn) {
+			cc := callOf(ins)
+			if cc == nil || !cc.IsInvoke() || (cc.Method.Name() != "SetDeadline" && cc.Method.Name() != "SetReadDeadline") {
+				continue
+			}
+			nSD++
+			c.ob("C37.c only-inbound-refreshes", fname(fn)+": the connection deadline is set only by refreshDeadline", c.pos(ins.Pos()), fname(fn) == "(*mqtt.Client).refreshDeadline", "")
+		}
+	}
+	c.floor("C37.c SetDeadline sites", nSD, 1)
 	if f := c.fn("mqtt", "(*Client).ParseConnect"); f != nil {
 		ok := false
 		for _, st := range storesTo(f, "cl.State.Keepalive") {
@@ -1195,7 +1217,7 @@ func init() {
 		ID:        "C41",
 		Title:     "Pooled buffers are never shared or returned dirty",
 		Technique: "ordering rule on the pool's Put methods; ownership/escape analysis of every mempool.GetBuffer() result in the module",
-		Explanation: "(a) Buffer.Put resets the buffer before handing it to sync.Pool; BufferWithCap.Put tests the capacity against the cap before the inner Put, and its Get returns only what the inner pool returns; " +
+		Explanation: "(a) Buffer.Put resets the buffer before handing it to sync.Pool; BufferWithCap.Put tests the capacity against the cap before the inner Put, and its Get returns only what the inner pool returns; sync.Pool.Put is called by Buffer.Put only, and every hand-back of the capped pool is on the within-cap edge; " +
 			"(b) for every mempool.GetBuffer() result in the module: exactly one deferred PutBuffer of the same value, registered immediately; the pointer is used only as a method receiver of bytes.Buffer or as the buffer argument of module encoders that obey the same rule; the result of .Bytes() flows only into copying consumers ((*bytes.Buffer).Write) and is never stored, returned or sent.",
 		NotDecided: []string{"sync.Pool itself", "callers outside the module that use mempool directly"},
 		Run:        runC41,
@@ -1216,6 +1238,25 @@ func runC41(c *Ctx) {
 		put := c.call1(f, "(*mempool.Buffer).Put")
 		c.underFact("C41.a reset-before-pooling", "(*mempool.BufferWithCap).Put keeps only buffers within the cap", put, textEq("(*bytes.Buffer).Cap(x) > b.max"), false, "")
 	}
+	// every hand-back to sync.Pool goes through (*Buffer).Put (reset first) — and, for the capped pool, through
+	// the capacity test: no other function of the package talks to the pool directly
+	nPool := 0
+	for _, fn := range c.ModFns {
+		if fnPkgPath(fn) != modPath+"/mempool" {
+			continue
+		}
+		for _, ci := range c.callsNamed(fn, "(*sync.Pool).Put") {
+			nPool++
+			c.ob("C41.a reset-before-pooling", fname(fn)+": sync.Pool.Put is called only by (*mempool.Buffer).Put", c.pos(ci.Pos()), fname(fn) == "(*mempool.Buffer).Put",
+				"a second way into the pool bypasses the reset and the capped pool's capacity test")
+		}
+		if strings.HasPrefix(fname(fn), "(*mempool.BufferWithCap).") {
+			for _, ci := range c.callsNamed(fn, "(*mempool.Buffer).Put") {
+				c.underFact("C41.a reset-before-pooling", fname(fn)+": every hand-back of the capped pool passed the capacity test ("+guardKey(ci)+")", ci, textHas("(*bytes.Buffer).Cap(", "> b.max"), false, "an over-cap buffer would be kept and handed out again")
+			}
+		}
+	}
+	c.floor("C41.a sync.Pool.Put sites in mempool", nPool, 1)
 	if f := c.fn("mempool", "(*BufferWithCap).Get"); f != nil {
 		ok := false
 		for _, r := range returns(f) {
